@@ -557,6 +557,93 @@ pub fn dfs_lines(ctx: &BoardCtx, root: &Pos, depth: usize) -> u64 {
     }
 }
 
+/// long lines on ONE board instance: `plies` moves made (move chosen by a fixed rule among the
+/// reference-legal moves, avoiding positions without moves), the snapshot remembered at every ply,
+/// then everything unmade in reverse order with the snapshot compared at every ply — for undo
+/// state that only runs out on long histories. C06 threads the incremental hash along the line,
+/// C02 compares every successor with the reference. Returns plies made.
+pub fn long_line(ctx: &BoardCtx, root: &Pos, plies: usize, rule: u64) -> u64 {
+    let fen = root.to_fen();
+    let mut b = match board_from_pos(root) {
+        Ok(b) => b,
+        Err(e) => {
+            ctx.rep.machinery(e);
+            return 0;
+        }
+    };
+    let r = guarded(|| {
+        let mut p = root.clone();
+        let mut snaps: Vec<Snap> = Vec::with_capacity(plies);
+        let mut made: Vec<Move> = Vec::with_capacity(plies);
+        let mut h = b.calculate_zobrist_hash();
+        let mut ph = b.calculate_zobrist_pawn_hash();
+        for ply in 0..plies {
+            let legal = p.legal();
+            // prefer reversible moves so the line goes on; fixed, reproducible choice
+            let cands: Vec<&Mv> = {
+                let quiet: Vec<&Mv> = legal.iter().filter(|m| !m.is_capture() && m.piece != PAWN && p.make(m).has_legal_move()).collect();
+                if quiet.is_empty() || (ply as u64 * 2654435761 + rule) % 97 == 0 {
+                    legal.iter().filter(|m| p.make(m).has_legal_move()).collect()
+                } else {
+                    quiet
+                }
+            };
+            if cands.is_empty() {
+                break;
+            }
+            let rm = *cands[((ply as u64).wrapping_mul(rule).wrapping_add(rule >> 3) % cands.len() as u64) as usize];
+            let rk = mkey_ref(&rm);
+            let sm = match b.generate_pseudo_legal_moves().into_iter().find(|m| mkey_sub(m) == rk) {
+                Some(m) => m,
+                None => break, // C01's business
+            };
+            snaps.push(snap(&b));
+            let (x, px) = Bitboard::zobrist_xor(sm);
+            b.make(sm);
+            made.push(sm);
+            p = p.make(&rm);
+            h ^= x;
+            ph ^= px;
+            match ctx.prop {
+                Prop::C02 => {
+                    let got = snap(&b).to_pos();
+                    if got != p {
+                        ctx.rep.report("long_line_successor_differs".to_string(), json!({"kind": "long_line", "fen": fen, "plies": plies, "rule": rule, "at_ply": ply, "expected": p.to_fen(), "actual": got.to_fen()}));
+                        return ply as u64;
+                    }
+                }
+                Prop::C06 => {
+                    if b.calculate_zobrist_hash() != h || b.calculate_zobrist_pawn_hash() != ph {
+                        ctx.rep.report("long_line_threaded_hash_differs".to_string(), json!({"kind": "long_line", "fen": fen, "plies": plies, "rule": rule, "at_ply": ply}));
+                        return ply as u64;
+                    }
+                }
+                _ => {}
+            }
+        }
+        let n = made.len();
+        if ctx.prop == Prop::C03 {
+            for i in (0..n).rev() {
+                b.unmake(made[i]);
+                let s = snap(&b);
+                if s != snaps[i] {
+                    let d = snaps[i].diff(&s);
+                    ctx.rep.report(format!("long_line_unmake:{}", d.join("+")), json!({"kind": "long_line", "fen": fen, "plies": plies, "rule": rule, "line_length": n, "wrong_after_unmaking_ply": i, "diff": d, "expected": snaps[i].to_pos().to_fen(), "actual": s.to_pos().to_fen()}));
+                    break;
+                }
+            }
+        }
+        n as u64
+    });
+    match r {
+        Ok(n) => n,
+        Err(msg) => {
+            ctx.viol(format!("panic:{}", short(&msg)), &fen, json!({"kind": "long_line", "panic": msg}));
+            0
+        }
+    }
+}
+
 /// C01 over histories: the position is reached through the subject's OWN make sequence (never
 /// rebuilt from FEN), the reference position is threaded alongside; at every node the legal move
 /// set offered by the board must equal the reference's. Catches state that only a history can
